@@ -8,6 +8,9 @@ use std::cell::Cell;
 use std::io::{BufRead, Read, Write};
 use std::os::unix::io::FromRawFd;
 
+#[global_allocator]
+static ALLOC: sched::CountingAlloc = sched::CountingAlloc;
+
 thread_local! {
     static EXPECT_INFO: Cell<(usize, usize)> = Cell::new((0, 0));
 }
@@ -60,7 +63,7 @@ unsafe fn deliver(sig: i32) {
     let h = old.sa_sigaction;
     if h == reg::verif_api::handler_addr() {
         sched::user_note(OP_START, 0, sig as i64, 1);
-        reg::verif_api::dispatch(sig, ip, cp);
+        sched::in_delivery(|| reg::verif_api::dispatch(sig, ip, cp));
     } else if h == libc::SIG_DFL || h == libc::SIG_IGN {
         sched::user_note(OP_START, 0, sig as i64, 0);
     } else {
@@ -231,6 +234,11 @@ fn canonical(res: &sched::RunResult, layout: &[[usize; 6]; 2]) -> String {
     s.push_str(" | P");
     for f in &res.panicked { s.push_str(if *f { " 1" } else { " 0" }); }
     s.push_str(&format!(" | S {} {}", res.stuck as i32, res.drain_steps));
+    s.push_str(&format!(
+        " | A {} {}",
+        sched::ALLOCS_IN_DELIVERY.load(std::sync::atomic::Ordering::SeqCst),
+        sched::FREES_IN_DELIVERY.load(std::sync::atomic::Ordering::SeqCst)
+    ));
     s
 }
 
